@@ -60,7 +60,7 @@ def run_one(m):
         b = subprocess.run(["go", "build", "./..."], cwd=os.path.join(d, "repo"), env=ENV, capture_output=True, text=True)
         if b.returncode != 0:
             return m, "broken", "mutant does not compile: " + b.stderr[-300:]
-        outs = []
+        outs, rcs = [], []
         props = m["property"] if isinstance(m["property"], list) else [m["property"]]
         detected = False
         for prop in props:
@@ -68,6 +68,7 @@ def run_one(m):
                                env=ENV, capture_output=True, text=True)
             out = c.stdout
             outs.append(out)
+            rcs.append(c.returncode)
             if c.returncode == 1 and "VIOLATION property=" + prop in out:
                 want = m.get("expect_rule")
                 lines = [l for l in out.split("\n") if "[" + (want or prop + "/") in l]
@@ -75,9 +76,9 @@ def run_one(m):
                     detected = True
         if m.get("silent"):
             # negative control: a behaviour-preserving edit must not raise an alarm
-            if all("VIOLATION property=" not in o for o in outs):
+            if all("VIOLATION property=" not in o for o in outs) and all(rc == 0 for rc in rcs):
                 return m, "silent-ok", ""
-            bad = [l for o in outs for l in o.split("\n") if "[C" in l][:2]
+            bad = [l for o in outs for l in o.split("\n") if "[C" in l or "CHECKER-FAILURE" in l][:2]
             return m, "false-alarm", " | ".join(bad)
         if detected:
             return m, "detected", ""
@@ -97,7 +98,9 @@ def main():
         for meta in sorted(glob.glob(os.path.join(HERE, "seeded", "*", "meta.json"))):
             mj = json.load(open(meta))
             if mj.get("detected_by"):
-                cat.append({"id": "seeded/" + os.path.basename(os.path.dirname(meta)), "property": mj["property"],
+                # run the check that owns the reporting rule (a change seeded for one
+                # property may be reported by a rule of another)
+                cat.append({"id": "seeded/" + os.path.basename(os.path.dirname(meta)), "property": mj["detected_by"].split("/")[0],
                             "expect_rule": mj["detected_by"], "patch": os.path.join(os.path.dirname(meta), "patch.diff")})
     sel = [m for m in cat if prop == "all" or prop == m["property"] or (isinstance(m["property"], list) and prop in m["property"])]
     if not sel:
